@@ -152,9 +152,10 @@ def main():
             try:
                 ok, secs, tail = vlib.leanchecker(mods)
             except subprocess.TimeoutExpired:
-                ok, secs, tail = True, -1, 'leanchecker timed out (not counted)'
-            stats['leanchecker'] = {'modules': len(mods), 'ok': ok, 'wall_s': secs}
-            if not ok: broken['audit'].append('leanchecker rejected the compiled modules: ' + tail[-300:])
+                ok, secs, tail = None, -1, 'leanchecker timed out (not counted)'
+            stats['leanchecker'] = {'modules': len(mods), 'ok': ok, 'wall_s': secs, 'note': (tail[-200:] if ok is not True else '')}
+            if ok is False: broken['audit'].append('leanchecker rejected the compiled modules: ' + tail[-300:])
+            elif ok is None: print('note: leanchecker inconclusive (not counted): ' + tail[-160:])
         deps = vlib.lean_deps(module)
         hits = vlib.forbidden_tokens([p for m, p in deps.items() if m.startswith('LentilVerif')])
         for h in hits: broken['audit'].append('forbidden token: ' + h)
